@@ -269,7 +269,7 @@ func emitRun(o lib.Opts) {
 		run.Finish("history", "replay", tail)
 		return
 	}
-	n := 7
+	n := 8
 	if o.Thorough() {
 		n = 60
 	}
